@@ -45,8 +45,68 @@ def _imports():
 
 
 def meta_dict(case):
+    if case.get('meta'):        # name-collision stream: its own order / group column names
+        return {'tp3': dict(case['meta'], timeseries=True, window=case['window'])}
     return {'tp3': {'timeseries': True, 'order_by_column': TIME,
                     'group_by_columns': GROUPS[:case['nG']], 'window': case['window']}}
+
+
+NAME_SETS = [('saledate', ['vendor_id', 'type']), ('pickup_hour', ['day', 'Region']), ('Ts', ['grp', 'sub_grp'])]
+
+
+def near_names(order, groups):
+    """foreign column names that are substrings / prefixes / suffixes / super-strings / case variants of substrings of
+    the order and (all, also unused) group column names -- none of them equals an allowed column case-insensitively"""
+    out = set()
+    for name in [order] + groups:
+        n = len(name)
+        for i in range(n):
+            for j in range(i + 1, n + 1):
+                if j - i < n:
+                    out.add(name[i:j])
+        out |= {name + '2', 'x' + name, name + '_', name[0] * 2 + name[1:]}
+        out |= {part for part in name.split('_') if part}
+    out |= {o.upper() for o in list(out)} | {o.capitalize() for o in list(out)}
+    return sorted(o for o in out if o and (o[0].isalpha() or o[0] == '_') and o.replace('_', 'a').isalnum())
+
+
+def collision_cases(rng, n):
+    """filters on foreign columns whose names collide textually with allowed ones, for 0, 1, 2 group-by columns:
+    every one must raise PlanningException"""
+    out = []
+    reserved = None
+    for k in range(n):
+        order, allg = NAME_SETS[k % len(NAME_SETS)]
+        nG = (k // len(NAME_SETS)) % 3
+        groups = allg[:nG]
+        allowed = {order.lower()} | {g.lower() for g in groups}
+        names = [x for x in near_names(order, allg) if x.lower() not in allowed]
+        foreign = rng.choice(names)
+        col = '`%s`' % foreign        # quoted: some fragments are keywords (or, on, end, id)
+        shape = rng.choice(['cmp', 'cmp', 'in', 'btw', 'rhs', 'btw_arg'])
+        ok_col = rng.choice(sorted(allowed))
+        if shape == 'cmp':
+            leaf = 'ta.%s %s 1' % (col, rng.choice(CMPS))
+        elif shape == 'in':
+            leaf = 'ta.%s in (1, 2)' % col
+        elif shape == 'btw':
+            leaf = 'ta.%s between 1 and 2' % col
+        elif shape == 'rhs':
+            leaf = 'ta.%s = ta.%s' % (ok_col, col)
+        else:
+            leaf = 'ta.%s between ta.%s and 5' % (ok_col, col)
+        leaves = [leaf]
+        if rng.random() < 0.5:
+            leaves.append('ta.%s > 1' % order)
+        if groups and rng.random() < 0.5:
+            leaves.append('ta.%s = 1' % rng.choice(groups))
+        rng.shuffle(leaves)
+        frm = 'mindsdb.tp3 tb join int.tbl ta' if rng.random() < 0.3 else 'int.tbl ta join mindsdb.tp3 tb'
+        out.append(dict(kind='rej', rej='foreign_near_name', expect='planning', nG=nG, window=rng.choice([1, 3]),
+                        model_left=frm.startswith('mindsdb'), flags='0000', limit=None, cls=None, absw=None,
+                        python_only=True, meta=dict(order_by_column=order, group_by_columns=groups), foreign=foreign,
+                        sql='select * from %s where %s' % (frm, ' and '.join(leaves)), _tc=None, _pfs=[]))
+    return out
 
 
 def real_plan(case):
@@ -449,6 +509,8 @@ def probe_case(case, tables):
 
     def fail(sig, desc, **kw):
         d = dict(desc=desc, sig=sig, sql=case['sql'], nG=case['nG'], window=case['window'])
+        if case.get('meta'):
+            d['meta'] = case['meta']; d['foreign_column'] = case.get('foreign')
         d.update(kw)
         d['class'] = sig
         fails.append(d)
@@ -640,7 +702,7 @@ def run(chk):
     rng = common.rng_for(chk.seed, 'C15')
     n_cases = 700 if not deep else 6000
     n_tables = 4 if not deep else 8
-    cases = fixed_cases() + [gen_case(rng) for _ in range(n_cases)]
+    cases = fixed_cases() + collision_cases(rng, 240 if not deep else 1500) + [gen_case(rng) for _ in range(n_cases)]
     dist = {}
     plines, pmeta, elines, emeta = [], [], [], []
     unabs = 0
@@ -652,6 +714,8 @@ def run(chk):
         parse_sql = _imports()[0]
         try:
             q = parse_sql(case['sql'], 'mindsdb')
+            if case.get('meta'):
+                raise Unabstractable('name-collision stream is probe-only')
             aw = None if q.where is None else absW(q.where, case['nG'])
             if case.get('absw') and aw != case['absw']:
                 chk.oblige('harness:abstraction', 'correspondence', False,
@@ -741,7 +805,7 @@ def replay(path):
         print(json.dumps(data, indent=1)[:3000])
         return 1
     print('failure:', json.dumps({k: v for k, v in f.items() if k not in ('class',)}, default=str)[:1500])
-    case = dict(sql=f['sql'], nG=f['nG'], window=f['window'])
+    case = dict(sql=f['sql'], nG=f['nG'], window=f['window'], meta=f.get('meta'))
     line, plan, err = canon_real(case)
     print('real plan now:', line, err or '')
     if f.get('table') is not None and plan is not None:
